@@ -54,8 +54,15 @@ def _np_shim():
         a = np.asarray(a, dtype=object).reshape(-1)
         return sym_min(*list(a)) if len(a) > 1 else a[0]
 
-    def ptp(a, *args, **kw):
-        a = np.asarray(a, dtype=object).reshape(-1)
+    def ptp(a, axis=None, **kw):
+        a = np.asarray(a, dtype=object)
+        if axis is not None and a.ndim == 2:
+            lanes = a if axis == 1 else a.T
+            out = np.empty(len(lanes), dtype=object)
+            for i, lane in enumerate(lanes):
+                out[i] = ptp(lane)
+            return out
+        a = a.reshape(-1)
         if len(a) == 1:
             return a[0] - a[0]
         return sym_max(*list(a)) - sym_min(*list(a))
